@@ -20,6 +20,18 @@ def extra_cases(rng, quick):
                 base = cssgen.gen_options(rng.fork(("o", len(out))))
                 base.update(o)
                 out.append((base, css))
+    # two or more comments in a row before a token, in every context that is read token by token including white space (selectors, the blocks and functions
+    # of selectors and at-rule preludes, calc()): the position recorded for the token is the token's, not a comment's (round 11, C19-12)
+    for css in (".a/* one *//* two */.b{color:red}",
+                ".a/*1*//*2*//*3*/.b /*x*//*y*/ .c{w:calc(1px/*a*//*b*/+ 2px);h:calc(/*a*//*b*/1rpx)}",
+                ":is(/*a*//*b*/.x,/*c*/ /*d*/.y)[/*a*//*b*/href]/*e*//*f*/:hover{a:b}",
+                "@media /*a*//*b*/screen and (/*c*//*d*/min-width:1px){.q/*e*//*f*/.r{x:1rpx}}",
+                ".\U0001F600/*\U0001F600*//*é*/.b\n/*1*//*2*/\n.c/**//**/>/**//**/.d{x:y}",
+                "@supports (/*a*//*b*/display:grid) and (not (/*c*//*d*/.a)){/*g*//*h*/.s/*i*//*j*/{k:l}}"):
+        for o in ({"class_prefix": "p"}, {"class_prefix": None}, {"class_prefix": "p", "class_prefix_sign": "sg"}):
+            base = cssgen.gen_options(rng.fork(("oc", len(out))))
+            base.update(o)
+            out.append((base, css))
     return out
 
 
